@@ -5,6 +5,16 @@ HERE = os.path.dirname(os.path.dirname(os.path.abspath(__file__)))
 ids = [json.loads(l)["id"] for l in open(os.path.join(HERE, "properties.jsonl"))]
 
 CLAIMS = {
+ "C12": dict(
+   text="Every header-rewrite action (set dl src/dst, VLAN vid/pcp incl. tag push, strip VLAN, nw src/dst/tos, tp src/dst) is "
+        "proved to change exactly the named field on 7 header-chain shapes (plain/VLAN, IPv4 TCP/UDP/ICMP, ARP, other) for all "
+        "field values; output to a physical port, IN_PORT, FLOOD, ALL and unsupported virtual ports emits on exactly the "
+        "permitted ports (not ingress, not down / forwarding-disabled / flood-disabled) once each with tx counters matching; "
+        "actions apply in order to the frame as modified so far; receive rules (unknown port, NO_RECV, NO_RECV_STP), rx "
+        "counters, and the miss path (buffer + packet-in unless NO_PACKET_IN).",
+   note="port table of three ports with symbolic bits and action lists of length 2 are bounded (reported so); serialisation "
+        "of emitted frames is C14; lookup C03; buffers C18.",
+   ref="7/C12"),
  "C15": dict(
    text="Ten core parsers (ethernet, vlan incl. nested tags, llc, arp, ipv4, udp, icmp, echo, unreachable, time-exceeded) are "
         "proved total on arbitrary byte strings of any length: construction raises nothing, `parsed` is a bool, the remainder "
